@@ -771,6 +771,7 @@ class PDFDocument:
         self._cached_objs: Dict[int, Tuple[object, int]] = {}
         self._parsed_objs: Dict[int, Tuple[List[object], int]] = {}
         self._objstms_being_read: Set[int] = set()
+        self._objs_being_parsed: Set[int] = set()
         self._parser = parser
         self._parser.set_document(self)
         self.is_printable = self.is_modifiable = self.is_extractable = True
@@ -928,7 +929,16 @@ class PDFDocument:
                             self._objstms_being_read.discard(strmid)
                         obj = self._getobj_objstm(stream, index, objid)
                     else:
-                        obj = self._getobj_parse(index, objid)
+                        if objid in self._objs_being_parsed:
+                            # e.g. a stream whose /Length refers to the stream
+                            raise PDFSyntaxError(
+                                "Object %r is needed to read itself" % objid
+                            )
+                        self._objs_being_parsed.add(objid)
+                        try:
+                            obj = self._getobj_parse(index, objid)
+                        finally:
+                            self._objs_being_parsed.discard(objid)
                         if self.decipher:
                             obj = decipher_all(self.decipher, objid, genno, obj)
                             if (
